@@ -11,7 +11,10 @@ Scanners layered over cursors (Cursor/Scanner.v, harness c14_scan.go, I lines): 
 IterateValidIds (uniqueIndexScanner reading one element ahead, ValidIdsCursors on top for extended stores) of root, child and
 extended child stores with constant and selective filters, every Next/Seek program of the other families plus seeks from every
 position (last element, exhausted) on stores of 0..5 entities; paged filters (Next only: the page); QueryWithCursorC over
-bolt / typed / filtered / tree providers in both directions."""
+bolt / typed / filtered / tree providers in both directions.
+Several cursors alive at once (Cursor/Product.v, harness c14_multi.go, M lines): families of 2-3 cursors in one transaction (the
+same set symbol on different / the same rows; every pair of cursor families over the same / different buckets), each with its own
+Next/Seek program, interleaved in every bounded merge order, all cursors re-observed after every turn: non-interference."""
 import json
 import os
 import subprocess
@@ -19,7 +22,8 @@ import subprocess
 import vlib
 
 PID = "C14"
-FILES = ["theories/Properties/C14.v", "theories/Examples/C14Examples.v", "theories/Examples/C14Scanner.v"]
+FILES = ["theories/Properties/C14.v", "theories/Examples/C14Examples.v", "theories/Examples/C14Scanner.v",
+         "theories/Examples/C14Product.v"]
 
 TREE_KINDS = ("tree", "treecursor", "uniontree", "anyof")
 
@@ -123,6 +127,31 @@ def parse_case(line):
             segs.append(dict(id=ident, present=present, elems=elems, ops=tk.ops()))
         return dict(head="R", kind=kind, fw=True, segs=segs, ops=[o for sg in segs for o in sg["ops"]],
                     size=sum(len(sg["elems"]) for sg in segs), inputs=[x for sg in segs for x in sg["elems"]])
+    if head == "M":
+        curs = []
+        for _ in range(int(tk.next())):
+            kind = tk.next()
+            fw = tk.next() == "1"
+            present = tk.next() == "1"
+            mask, mask2 = int(tk.next()), int(tk.next())
+            a = tk.set()
+            b = tk.set()
+            ops = tk.ops()
+            if not present:
+                elems = []
+            elif kind == "filtered":
+                elems = [x for x in a if x in b]
+            elif kind == "union":
+                elems = sorted(set(a) | set(b))
+            elif kind == "tree":
+                elems = sorted(set(a))
+            else:
+                elems = list(a)
+            curs.append(dict(kind=kind, fw=fw, present=present, mask=mask, mask2=mask2, a=a, b=b, elems=elems, ops=ops))
+        sched = [int(x) for x in tk.ops()]
+        return dict(head="M", kind="+".join(cu["kind"] for cu in curs), fw=True, curs=curs, sched=sched,
+                    ops=[o for cu in curs for o in cu["ops"]], size=sum(len(cu["a"]) + len(cu["b"]) for cu in curs) + 8 * len(curs),
+                    inputs=[x for cu in curs for x in cu["a"] + cu["b"]])
     if head == "S":
         field = tk.next()
         variant = tk.next()
@@ -205,6 +234,17 @@ def oracle(pc):
         for k, sg in enumerate(pc["segs"]):
             out += (["/"] if k else []) + oracle_trace(sg["elems"], True, sg["ops"])
         return out
+    if pc.get("head") == "M":
+        # several cursors alive at once: after every turn each cursor shows the entry of ITS OWN solo trace (position machine over
+        # its own set) numbered by its own turns so far - "-" before its constructor, the last entry once its program is through
+        solo = [oracle_trace(cu["elems"] if cu["fw"] else list(reversed(cu["elems"])), cu["fw"], cu["ops"]) for cu in pc["curs"]]
+        turns = [0] * len(solo)
+        out = []
+        for j in pc["sched"]:
+            if 0 <= j < len(turns):
+                turns[j] += 1
+            out.append(",".join("-" if n == 0 else t[min(n, len(t)) - 1] for t, n in zip(solo, turns)))
+        return out
     if pc.get("head") == "I":
         if pc["query"]:
             # QueryWithCursorC: the page in the direction of the scan, then the number of matches
@@ -237,8 +277,24 @@ def oracle(pc):
     return out
 
 
-def classify(pc, impl_t, spec_t):
-    """stable signature of the class of failure"""
+def multi_deviation(pc, impl_t, spec_t, j):
+    """M lines: (index of the first cursor whose view deviates at turn j, what it shows, what it should show)"""
+    vi = impl_t[j].split(",") if j < len(impl_t) else []
+    vs = spec_t[j].split(",") if j < len(spec_t) else []
+    for i in range(max(len(vi), len(vs))):
+        a = vi[i] if i < len(vi) else "?"
+        b = vs[i] if i < len(vs) else "?"
+        if a != b:
+            return i, a, b
+    return 0, "?", "?"
+
+
+# M lines: which single-cursor case kinds tell that a cursor kind is defective ALONE
+SOLO_KINDS = {"gs-tags": ("setsym", "rs-tags"), "gs-grps": ("rs-grps", "links"), "setsymraw": ("setsymraw", "rs-tagsraw")}
+
+
+def classify(pc, impl_t, spec_t, solo_bad=()):
+    """stable signature of the class of failure; solo_bad: case kinds with violations in single-cursor cases of this run"""
     j = next((k for k in range(min(len(impl_t), len(spec_t))) if impl_t[k] != spec_t[k]), min(len(impl_t), len(spec_t)))
     ti = impl_t[j] if j < len(impl_t) else "?"
     ts = spec_t[j] if j < len(spec_t) else "?"
@@ -247,6 +303,20 @@ def classify(pc, impl_t, spec_t):
         fam = "composite" if "." in pc["field"] else "setsym"
         what = {"H": "hang", "P": "panic", "E": "error"}.get(impl_t[0] if impl_t else "?", "rows")
         return "C14:scan-%s-%s" % (fam, what), j
+    if pc.get("head") == "M":
+        i, ti, ts = multi_deviation(pc, impl_t, spec_t, j)
+        cu = pc["curs"][i] if i < len(pc["curs"]) else pc["curs"][0]
+        others = any(x != i for x in pc["sched"][:j + 1])
+        if ti == "P":
+            return "C14:%s-%s" % (cu["kind"], "interference-panic" if others else "panic"), j
+        turn = pc["sched"][j] if j < len(pc["sched"]) else -1
+        alone_bad = any(k in solo_bad for k in SOLO_KINDS.get(cu["kind"], (cu["kind"],)))
+        if others and (turn != i or not alone_bad):
+            # moved by the turn of another cursor, or its own operation went wrong although this kind of cursor is right whenever
+            # it runs alone (single-cursor cases of this run): it no longer shows what it shows alone
+            return "C14:%s-interference" % cu["kind"], j
+        own = cu["ops"][:max(0, pc["sched"][:j + 1].count(i) - 1)]
+        return "C14:%s-%s" % (cu["kind"], "seek" if any(o != "N" for o in own) else "enumerate"), j
     if pc.get("head") == "R":
         seg = impl_t[:j].count("/") if j <= len(impl_t) else 0
         if seg >= 1:
@@ -293,11 +363,11 @@ def main(argv):
     c = vlib.Check(PID, argv)
     c.cov["trusted_base"] = [
         "Coq 8.16.1 kernel (coqc; coqchk in the thorough tier); vm_compute in Examples only; no axioms",
-        "hand-written models Cursor/{BoltCursor,Typed,Filtered,Union,Tree,SetSym,Cases,Reuse,Scanner}.v of boltz/query_bolt_cursors.go, ast/cursors.go, boltz/query_scanners.go (uniqueIndexScanner), boltz/store_query.go (IterateIds, IterateValidIds, ValidIdsCursors) and the hand-out sites",
+        "hand-written models Cursor/{BoltCursor,Typed,Filtered,Union,Tree,SetSym,Cases,Reuse,Scanner,Product}.v of boltz/query_bolt_cursors.go, ast/cursors.go, boltz/query_scanners.go (uniqueIndexScanner), boltz/store_query.go (IterateIds, IterateValidIds, ValidIdsCursors) and the hand-out sites",
         "Cursor/BoltCursor.v as a description of bbolt 1.4.0 cursors (compared with real bbolt on every run: case kind B)",
         "llrb.Tree as an ordered set (replace on equal, in-order Left/Right links); its balancing is not modelled",
         "extraction (ExtrOcamlBasic only) + extraction/c14_driver.ml + drv_common.ml",
-        "Go harness cmd/storageharness/c14.go, c14_reuse.go, c14_scan.go (stores, generators) and this comparison / oracle",
+        "Go harness cmd/storageharness/c14.go, c14_reuse.go, c14_scan.go, c14_multi.go (stores, generators) and this comparison / oracle",
         "filters of the scanner cases: the set of ids a filter accepts is what the harness wrote (role r<mask> on the ids of mask); evaluation of filters is C01's subject",
         "uniqueIndexScanner.targetLimit = math.MaxInt64 (no limit) is modelled as 'never reached'; a paged scanner cursor that is SOUGHT is compared with the model only (design/C14.md section 9)",
         "composite set symbols (stackedCursor): no C14 model, implementation compared with the specification (concatenation computed by the harness) only",
@@ -343,6 +413,8 @@ def main(argv):
     n_cases = 0
     nontrivial = set()
     prop_viol = []       # (sortkey, key, case, impl, model, spec, j)
+    multi_viol = []      # M lines that violate: (parsed case, case, impl, model, spec)
+    solo_bad = set()     # case kinds with a violation in a single-cursor case
     corr = []            # model != impl although impl == spec, or model != spec
     bolt_bad = []
     paged_bad = []
@@ -383,8 +455,11 @@ def main(argv):
                 per_kind[pc["kind"]] = per_kind.get(pc["kind"], 0)
                 if oracle(pc) != sp_t:
                     spec_bad.append((case, " ".join(oracle(pc)), sp))
-            if impl_t != sp_t:
+            if impl_t != sp_t and pc.get("head") == "M":
+                multi_viol.append((pc, case, impl, mo, sp))      # classified after the single-cursor cases are known
+            elif impl_t != sp_t:
                 key, j = classify(pc, impl_t, sp_t)
+                solo_bad.add(pc["kind"])
                 prop_viol.append(((pc["size"], len(pc["ops"]), j, len(case)), key, case, impl, mo, sp, j))
             elif mo_t != sp_t and mo != "-":
                 corr.append((case, impl, mo, sp))
@@ -394,6 +469,9 @@ def main(argv):
         for s in samples:
             vlib.log("REPLAY case=%s\n  impl =%s\n  model|spec=%s" % (s["case"], s["impl"], s["model"]))
 
+    for pc, case, impl, mo, sp in multi_viol:
+        key, j = classify(pc, impl.split(), sp.split(), solo_bad)
+        prop_viol.append(((pc["size"], len(pc["ops"]), j, len(case)), key, case, impl, mo, sp, j))
     # property violations: smallest input of every class first
     prop_viol.sort()
     seen = {}
@@ -438,6 +516,22 @@ def main(argv):
                         "query result read as a" if pc["query"] else "seekable", dec(pc["elems"]),
                         " ".join(pc["ops"]) or "(none)", j, impl.split()[j] if j < len(impl.split()) else "?",
                         sp.split()[j] if j < len(sp.split()) else "?", impl, sp))
+        elif pc.get("head") == "M":
+            i, ti, ts = multi_deviation(pc, impl.split(), sp.split(), j)
+            site = {"gs-tags": "Store.GetSymbol(\"tags\").(RuntimeEntitySetSymbol).OpenCursor", "gs-grps": "Store.GetSymbol(\"grps\") [link set] .OpenCursor",
+                    "setsym": "tagsSymbol.GetRuntimeSymbol().OpenCursor", "setsymraw": "tagsSymbol.GetRuntimeSymbol().OpenCursor (raw Seek)",
+                    "ids": "IterateIds", "tree": "TreeSet.ToCursor", "union": "NewUnionSetCursor", "filtered": "NewFilteredCursor"}
+            desc = "; ".join("cursor #%d = %s%s %s over %s, program [%s]" % (
+                n, site.get(cu["kind"], cu["kind"]), "" if cu["fw"] else " (reverse)",
+                "on an entity that does not exist" if cu["mask"] < 0 else "on row/bucket %d" % cu["mask"], dec(cu["elems"]),
+                " ".join(cu["ops"])) for n, cu in enumerate(pc["curs"]))
+            turn = pc["sched"][j] if j < len(pc["sched"]) else -1
+            what = ("%d cursors alive at once in one read transaction (buckets not modified): %s. Turns (cursor index: first turn = constructor, later turns "
+                    "= next operation of its program) %s: after turn #%d (of cursor #%d) cursor #%d shows %s, alone it shows %s - %s. "
+                    "Views after every turn %s, demanded %s" % (
+                        len(pc["curs"]), desc, " ".join(map(str, pc["sched"])), j + 1, turn, i, ti, ts,
+                        "it was moved by the turn of ANOTHER cursor: the two hand-outs share their position" if turn != i
+                        else "its own operation continued from a position another cursor left", impl, sp))
         elif pc.get("head") == "S":
             rows = ", ".join("%s:%s" % (r[0].decode("latin-1"), {0: "absent", 2: "no bucket"}.get(r[1], dec(r[2]))) for r in pc["rows"])
             got = {"H": "did not return within 10 s (the set cursor of a row never exhausts)", "P": "panicked", "E": "failed"}.get(
@@ -477,6 +571,10 @@ def main(argv):
                      "true] / 2 (3) [selective, child stores] AND by the walks Next^k Seek t Next for every k = 0 .. |P|+1 and every target (a seek from every "
                      "position, the last element and exhaustion included); filters with skip/limit (11 pagings) Next-only against the page, with Seek against "
                      "the model only; QueryWithCursorC over the entities bucket cursor / set index value cursor / AllOf / AnyOf iterators, both directions, all pagings; "
+                     "SEVERAL CURSORS ALIVE AT ONCE (one read transaction, all cursors re-observed after every turn): two cursors of the same set symbol "
+                     "(GetSymbol / GetRuntimeSymbol of a string-list and a link-set field) on 7 (9) x 7 (9) rows incl. equal rows, no bucket, no entity x 5 (9) x 5 (9) "
+                     "programs x every merge order (Next-only programs; up to 5 operations thorough) or 4-8 characteristic merge orders; three cursors of one symbol on "
+                     "27 (64) row triples x every merge order; every ordered pair of the 30 cursor families over the same / different buckets with Next and Seek programs; "
                      "AllOf/AnyOf iterators over seeded random role assignments x all value lists of length <= 3; B: seeded random First/Last/Next/Prev/Seek "
                      "sequences on real bbolt buckets (all 32 subsets, one multi-page bucket, read-only and writable transactions). "
                      "Observed after the constructor and after every op: IsValid / Current. Non-trivial: the specification trace contains at least one valid "
